@@ -174,6 +174,32 @@ def handle (args impl : List String) : String :=
         | none => bad "vec states"
       | _, _ => bad "vec traj points"
     | _, _, _, _ => bad "vec traj params"
+  | "vec" :: "trajl" :: wpT :: wvT :: npT :: nT :: lateT :: rest =>
+    -- the last point joins at frame `late`: every point is still its own point filter over its own frames
+    match rat? wpT, rat? wvT, npT.toNat?, nT.toNat?, lateT.toNat? with
+    | some wp, some wv, some np, some n, some late =>
+      match parsePts n (2 * np) rest, impl with
+      | some (zs, []), sameT :: cntT :: irest =>
+        let cfg := ptCfg wp wv
+        let pt (j : Nat) (z : List Rat) : List Rat := [z.getD (2 * j) 0, z.getD (2 * j + 1) 0]
+        let traj (j : Nat) : List (C1 Rat) :=
+          let frames := (zs.drop (if j + 1 == np then late else 0)).map (pt j)
+          frames.tail.foldl (fun st z => ptUpdate cfg (ptPredict cfg st) z) (ptInitiate cfg (frames.headD []))
+        let final := (List.range np).map traj
+        let rec decL : Nat → List String → List (List (C1 Rat)) → Option (List (List (C1 Rat)))
+          | 0, _, acc => some acc.reverse
+          | m+1, ts, acc => match takeRats 11 ts with
+            | some (l, ts') => (decodeState 2 l).bind (fun (s, _) => decL m ts' (s :: acc))
+            | none => none
+        match decL np irest [] with
+        | some is =>
+          let k := cntT == toString np && (final.zip is).all (fun (m, i) =>
+            let sc := (i.map (fun c => rabs c.p)).foldl max 1
+            (m.zip i).all (fun (x, y) => decide (rabs (x.p - y.p) ≤ sc / 1000) && decide (rabs (x.a - y.a) ≤ rabs y.a / 100 + 1 / 1000000)))
+          res k (sameT == "1" && is.all (fun s => s.all spd)) (["mixed-age-vector"] ++ flag (n > 1) "multi-step") s!"same={sameT}"
+        | none => bad "vec states"
+      | _, _ => bad "vec trajl points"
+    | _, _, _, _, _ => bad "vec trajl params"
   | _ => bad "kf op"
 
 end SimVerif.Driver.KfD
